@@ -21,6 +21,7 @@ INVARIANTS
   NoLostUpdate
   IncrementsPermutation
   OutcomeIsSerial
+  OutcomeInSerialSet
   IndependentRunsEqualSequential
   FailureLeavesContent
   QuiescentAtEnd
@@ -28,6 +29,6 @@ INVARIANTS
 PROPERTIES
   LinearizableStep
   WritesOnlyUnderLock
-  Termination
+  DeadlockFree
 POSTCONDITION NoEmit
 CHECK_DEADLOCK TRUE
